@@ -1,5 +1,7 @@
 mod c01;
 mod c04;
+mod c07;
+mod c08;
 mod c09;
 mod c11;
 mod c12;
@@ -13,6 +15,8 @@ fn main() {
         ("C04", c04::run),
         ("C05", c01::run_c05),
         ("C06", c01::run_c06),
+        ("C07", c07::run),
+        ("C08", c08::run),
         ("C09", c09::run),
         ("C11", c11::run_pure),
         ("C12", c12::run),
